@@ -478,6 +478,11 @@ pub fn preemptions(points: &[PointRec], upto: usize) -> usize {
 
 /// Children of an executed choice sequence under a pre-emption bound (see module docs).
 pub fn children(prefix_len: usize, points: &[PointRec], bound: usize) -> Vec<Vec<usize>> {
+    children_with_cost(prefix_len, points, bound).into_iter().map(|(_, c)| c).collect()
+}
+
+/// The alternatives of an execution, each with the number of pre-emptions its prefix contains.
+pub fn children_with_cost(prefix_len: usize, points: &[PointRec], bound: usize) -> Vec<(usize, Vec<usize>)> {
     let mut out = Vec::new();
     for i in prefix_len..points.len() {
         let p = &points[i];
@@ -489,7 +494,7 @@ pub fn children(prefix_len: usize, points: &[PointRec], bound: usize) -> Vec<Vec
             }
             let mut c: Vec<usize> = points[..i].iter().map(|q| q.chosen).collect();
             c.push(alt);
-            out.push(c);
+            out.push((cost, c));
         }
     }
     out
